@@ -54,20 +54,79 @@ class OrderStub(Module):
             bad(name + "_write_data_taken_but_none_offered", resp & ~port.wdata.valid)
 
 
-def bist_bench(name, dw=16, aw=6, force=None):
+class AxiOrderStub(Module):
+    """in-order AXI slave side: AW/W/B or AR/R with real handshakes; R returns FREE data (arbitrary contents), held until taken"""
+    def __init__(self, port, read, name, depth=3, min_latency=2):
+        self.inputs = {}
+        self.bads = {}
+        self.assumes = {}
+        stall = Signal(name_override=name + "_cmd_stall")
+        go = Signal(name_override=name + "_resp_go")
+        self.inputs[name + "_cmd_stall"] = stall
+        self.inputs[name + "_resp_go"] = go
+        cmd = port.ar if read else port.aw
+        level = Signal(max=depth + 1)
+        ages = [Signal(max=min_latency + 1) for _ in range(depth)]
+        acc = Signal()
+        resp = Signal()
+        avail = Signal()
+        self.comb += [cmd.ready.eq((level != depth) & ~stall), acc.eq(cmd.valid & cmd.ready),
+                      avail.eq((level != 0) & (ages[0] >= min_latency))]
+        inc = lambda x: Mux(x >= min_latency, x, x + 1)
+        for i in range(depth):
+            nxt = ages[i + 1] if i + 1 < depth else Constant(0, 1)
+            self.sync += [If(resp, ages[i].eq(inc(nxt)), If(acc & (level == i + 1), ages[i].eq(1))
+                             ).Else(ages[i].eq(inc(ages[i])), If(acc & (level == i), ages[i].eq(1)))]
+        self.sync += level.eq(level + acc - resp)
+        self.acc, self.resp, self.level, self.cmd = acc, resp, level, cmd
+        bad = _bad_adder(self, self.bads)
+        bad(name + "_axi_access_is_not_one_full_width_beat", cmd.valid & ((cmd.len != 0) | (cmd.size != log2_int(len(port.w.data) // 8))))
+        if read:
+            data = Signal(len(port.r.data), name_override=name + "_rdata")
+            self.inputs[name + "_rdata"] = data
+            hold = Signal()
+            self.comb += [port.r.valid.eq(avail & (go | hold)), port.r.data.eq(data), port.r.last.eq(1), resp.eq(port.r.valid & port.r.ready)]
+            self.sync += hold.eq(port.r.valid & ~port.r.ready)
+            c = monitors.StreamContract(port.r.valid, port.r.ready, [port.r.data])
+            self.submodules += c
+            self.assumes[name + "_r_payload_held_until_taken"] = c.ok
+        else:
+            # the slave takes the write data of its oldest accepted address whenever it likes (W is a real handshake)
+            self.comb += [port.w.ready.eq(avail & go), resp.eq(port.w.valid & port.w.ready)]
+            bv = Signal(name_override=name + "_b_valid")
+            self.inputs[name + "_b_valid"] = bv
+            self.comb += port.b.valid.eq(bv)
+            bad(name + "_write_response_not_accepted", port.b.valid & ~port.b.ready)
+            bad(name + "_write_strobes_not_all_set", port.w.valid & (port.w.strb != 2**(len(port.w.data) // 8) - 1))
+
+
+def bist_bench(name, dw=16, aw=6, force=None, axi=False):
     from litedram.frontend.bist import _LiteDRAMBISTGenerator, _LiteDRAMBISTChecker
-    wp = LiteDRAMNativePort("write", aw, dw)
-    rp = LiteDRAMNativePort("read", aw, dw)
     ashift = log2_int(dw // 8)
     awidth = aw + ashift
+    if axi:
+        from litedram.frontend.axi import LiteDRAMAXIPort
+        wp = LiteDRAMAXIPort(data_width=dw, address_width=awidth, id_width=1)
+        rp = LiteDRAMAXIPort(data_width=dw, address_width=awidth, id_width=1)
+    else:
+        wp = LiteDRAMNativePort("write", aw, dw)
+        rp = LiteDRAMNativePort("read", aw, dw)
 
     class Top(Module):
         pass
     top = Top()
     top.submodules.gen = gen = _LiteDRAMBISTGenerator(wp)
     top.submodules.chk = chk = _LiteDRAMBISTChecker(rp)
-    top.submodules.ws = ws = OrderStub(wp, False, "w")
-    top.submodules.rs = rs = OrderStub(rp, True, "r")
+    if axi:
+        top.submodules.ws = ws = AxiOrderStub(wp, False, "w")
+        top.submodules.rs = rs = AxiOrderStub(rp, True, "r")
+        wcmd, rcmd = wp.aw, rp.ar
+        alog = awidth           # AXI: byte addresses
+    else:
+        top.submodules.ws = ws = OrderStub(wp, False, "w")
+        top.submodules.rs = rs = OrderStub(rp, True, "r")
+        wcmd, rcmd = wp.cmd, rp.cmd
+        alog = aw
     base = Signal(awidth, name_override="BASE")
     end = Signal(awidth + 1, name_override="END")
     length = Signal(awidth, name_override="LENGTH")
@@ -81,7 +140,8 @@ def bist_bench(name, dw=16, aw=6, force=None):
     inputs.update(ws.inputs)
     inputs.update(rs.inputs)
     consts = {"BASE": base, "END": end, "LENGTH": length, "RANDOM_DATA": rnd_d, "RANDOM_ADDR": rnd_a}
-    assumes = {}
+    assumes = dict(getattr(ws, "assumes", {}))
+    assumes.update(getattr(rs, "assumes", {}))
 
     def asm(n, e):
         s = Signal(name_override="asm_" + n)
@@ -101,9 +161,9 @@ def bist_bench(name, dw=16, aw=6, force=None):
     if force:
         asm("forced_mode", (rnd_a == force.get("random_addr", 0)) & (rnd_d == force.get("random_data", 0)))
     # logs
-    g_addr = [Signal(aw) for _ in range(NMAX)]
+    g_addr = [Signal(alog) for _ in range(NMAX)]
     g_data = [Signal(dw) for _ in range(NMAX)]
-    c_addr = [Signal(aw) for _ in range(NMAX)]
+    c_addr = [Signal(alog) for _ in range(NMAX)]
     c_ret = [Signal(dw) for _ in range(NMAX)]
     gk = Signal(max=NMAX + 2)
     gd = Signal(max=NMAX + 2)
@@ -119,10 +179,10 @@ def bist_bench(name, dw=16, aw=6, force=None):
     gks = Signal(max=NMAX + 2)
     cds = Signal(max=NMAX + 2)
     top.sync += [
-        If(ws.acc, gk.eq(gk + 1), *[If(gk == i, g_addr[i].eq(wp.cmd.addr)) for i in range(NMAX)]),
+        If(ws.acc, gk.eq(gk + 1), *[If(gk == i, g_addr[i].eq(wcmd.addr)) for i in range(NMAX)]),
         If(ws.resp, gd.eq(gd + 1)),
         If(gs, gks.eq(gks + 1), *[If(gks == i, g_data[i].eq(dma_w.sink.data)) for i in range(NMAX)]),
-        If(rs.acc, ck.eq(ck + 1), *[If(ck == i, c_addr[i].eq(rp.cmd.addr)) for i in range(NMAX)]),
+        If(rs.acc, ck.eq(ck + 1), *[If(ck == i, c_addr[i].eq(rcmd.addr)) for i in range(NMAX)]),
         If(rs.resp, cd.eq(cd + 1)),
         If(cs_, cds.eq(cds + 1), *[If(cds == i, c_ret[i].eq(dma_r.source.data)) for i in range(NMAX)]),
     ]
@@ -141,7 +201,9 @@ def bist_bench(name, dw=16, aw=6, force=None):
     bad("generator_writes_more_words_than_length", ws.acc & (gk >= nwords) & started)
     bad("checker_reads_more_words_than_length", rs.acc & (ck >= nwords) & started)
     # range clause
-    byte_addr = Cat(Replicate(0, ashift), wp.cmd.addr) if ashift else wp.cmd.addr
+    byte_addr = wcmd.addr if axi else (Cat(Replicate(0, ashift), wcmd.addr) if ashift else wcmd.addr)
+    if axi and ashift:
+        bad("axi_address_not_word_aligned", (ws.acc & (wcmd.addr[:ashift] != 0)) | (rs.acc & (rcmd.addr[:ashift] != 0)))
     outside = ws.acc & ((byte_addr < base) | (byte_addr >= end))
     inside_case = (rnd_a == 0) & (nwords <= (rng >> ashift))
     bad("generator_address_outside_range_sequential_within_range", outside & inside_case)
@@ -156,7 +218,7 @@ def bist_bench(name, dw=16, aw=6, force=None):
     cov("both_done_no_difference", both_done & (nmis == 0) & (nwords >= 2))
     b = bmc.Bench(name, top, inputs, consts=consts, assumes=assumes, bads=bads, covers=covers, info=dict(dw=dw, aw=aw, nmax=NMAX))
     b.watch = {"gen_done": gen.done, "chk_done": chk.done, "errors": chk.errors, "gk": gk, "gd": gd, "ck": ck, "cd": cd,
-               "w_addr": wp.cmd.addr, "w_acc": ws.acc, "r_addr": rp.cmd.addr, "r_acc": rs.acc}
+               "w_addr": wcmd.addr, "w_acc": ws.acc, "r_addr": rcmd.addr, "r_acc": rs.acc}
     return b
 
 
@@ -165,6 +227,8 @@ CONFIGS = {
     "native16_rnda_seq": (dict(dw=16, aw=5, force=dict(random_addr=1, random_data=0)), 28, 40, "qt"),
     "native16_seq_rndd": (dict(dw=16, aw=5, force=dict(random_addr=0, random_data=1)), 28, 40, "qt"),
     "native16_rnda_rndd": (dict(dw=16, aw=5, force=dict(random_addr=1, random_data=1)), 28, 40, "qt"),
+    "axi16_seq_rndd": (dict(dw=16, aw=5, axi=True, force=dict(random_addr=0, random_data=1)), 28, 40, "qt"),
+    "axi16_rnda_seq": (dict(dw=16, aw=5, axi=True, force=dict(random_addr=1, random_data=0)), 0, 40, "t"),
     "native16": (dict(dw=16, aw=6), 0, 36, "t"),
     "native32_seq": (dict(dw=32, aw=5, force=dict(random_addr=0, random_data=0)), 0, 40, "t"),
     "native8": (dict(dw=8, aw=6), 0, 40, "t"),
@@ -177,7 +241,8 @@ def run(ctx):
                "so that both runs complete inside the window; single start pulse at an arbitrary time")
     ctx.assume("memory: two independent in-order native stubs (arbitrary stalls, latency >= 2, <= 3 commands queued); every read "
                "word is a fresh solver variable (arbitrary contents / arbitrary corruption)")
-    ctx.assume("native ports; the AXI branch, the pattern generator/checker variants and the CSR wrappers are not covered")
+    ctx.assume("native ports and (axi* benches) LiteDRAMAXIPort with real AW/W/B and AR/R handshakes; the pattern generator/checker "
+               "variants and the CSR wrappers are not covered")
     for n, (kw, kq, kt, tiers) in CONFIGS.items():
         if ctx.only and not ctx.only.search(n):
             continue
